@@ -349,7 +349,7 @@ def no_swallow(u: Unit):
                             continue
                         u.undecide(f"no_swallow.context_manager[{fn.qualname.split('::')[1]}:{n.lineno}]", fn.qualname, f"context manager {callee} around a pipeline call is not one with a transparency contract")
     u.static("no_swallow.context_managers", True, "", f"context managers around pipeline calls: {sorted(with_cms)} (set_random_seed: unit seed_context; {sorted(TRANSPARENT_CMS)}: library, transparent)")
-    u.static("no_swallow.cover", n_handlers >= 3, "", f"{n_handlers} handlers on the chain inspected")
+    u.guard("no_swallow.cover", n_handlers >= 3, "", f"{n_handlers} handlers on the chain inspected")
 
 
 @unit("C09", "calibration")
